@@ -434,7 +434,7 @@ class POXCore (EventMixin):
       if o not in self._go_up_deferrals:
         raise RuntimeError("This deferral has already been executed")
       self._go_up_deferrals.remove(o)
-      if not self._go_up_deferrals:
+      if not self._go_up_deferrals and not self.starting_up:
         log.debug("Continuing to go up")
         self._goUp_stage2()
 
